@@ -106,8 +106,10 @@ class LogfileHandler(mlzlog.LogfileHandler):
         if self.max_days:
             # keep only the last max_days files
             with os.scandir(dirname(self.baseFilename)) as it:
-                files = sorted(entry.path for entry in it if entry.name != 'current')
-            for filepath in files[-self.max_days:]:
+                files = sorted(entry.path for entry in it
+                               if entry.name.startswith(self.rootname + '-')
+                               and entry.name.endswith('.log'))
+            for filepath in files[:-self.max_days]:
                 os.remove(filepath)
 
 
